@@ -138,18 +138,19 @@ example : rowLe ⟨fun _ => [], fun _ => [], fun _ => []⟩ [([107], false)] [([
 
 /-! ### The same, of the planner (through C03's `select_pattern_eq_solutions`) -/
 
-/-- Writing the clauses of a pattern in another order (no OPTIONAL, no bound aliases) makes the planner pick
+/-- Writing the clauses of a pattern in another order (no OPTIONAL, no bound aliases — `hno`: none on an object's interval either) makes the planner pick
     other strategies — which clause is fetched first, which are joined row by row — and leave the same set of
     rows. -/
 theorem planner_clause_order_invariant {gs : List QGraph} {F : Facts} (hF : BW.Proofs.Store.Facts.WF F = true)
     (hg : BW.Proofs.Planner.GraphsOK F gs) (U : BW.Proofs.Planner.Universe gs) (lo : QOpts)
     (c0 : Clause) (cs : List Clause) (c0' : Clause) (cs' : List Clause) (hp : (c0 :: cs).Perm (c0' :: cs'))
     (hpc : ∀ c ∈ c0 :: cs, BW.Proofs.Planner.PatClause U c ∧ BW.Proofs.ClauseOrder.Plain c)
+    (hno : ∀ c ∈ c0 :: cs, c.oLowerAlias = [] ∧ c.oUpperAlias = [])
     (h0 : c0.extractsNothing = false) (h0' : c0'.extractsNothing = false)
     (out out' : Tbl) (h : processPattern F gs (c0 :: cs) lo 0 (fun _ => none) = .ok out)
     (h' : processPattern F gs (c0' :: cs') lo 0 (fun _ => none) = .ok out') :
     BW.Proofs.Planner.SetEq out.rows out'.rows :=
-  BW.Proofs.Planner.planner_clause_order hF hg U lo c0 cs c0' cs' hp hpc h0 h0' out out' h h'
+  BW.Proofs.Planner.planner_clause_order hF hg U lo c0 cs c0' cs' hp hpc hno h0 h0' out out' h h'
 
 /-- The same triples spread differently over the graphs listed in FROM: the same set of rows. -/
 theorem planner_partition_invariant {gs gs' : List QGraph} {F : Facts} (hF : BW.Proofs.Store.Facts.WF F = true)
@@ -157,11 +158,12 @@ theorem planner_partition_invariant {gs gs' : List QGraph} {F : Facts} (hF : BW.
     (U : BW.Proofs.Planner.Universe gs) (U' : BW.Proofs.Planner.Universe gs') (lo : QOpts) (c0 : Clause) (cs : List Clause)
     (hscan : (gs.flatMap BW.Proofs.Planner.scanOf).Perm (gs'.flatMap BW.Proofs.Planner.scanOf))
     (hpc : ∀ c ∈ c0 :: cs, BW.Proofs.Planner.PatClause U c) (hpc' : ∀ c ∈ c0 :: cs, BW.Proofs.Planner.PatClause U' c)
+    (hno : ∀ c ∈ c0 :: cs, c.oLowerAlias = [] ∧ c.oUpperAlias = [])
     (hopt : c0.optional = false) (h0 : c0.extractsNothing = false)
     (out out' : Tbl) (h : processPattern F gs (c0 :: cs) lo 0 (fun _ => none) = .ok out)
     (h' : processPattern F gs' (c0 :: cs) lo 0 (fun _ => none) = .ok out') :
     BW.Proofs.Planner.SetEq out.rows out'.rows :=
-  BW.Proofs.Planner.planner_partition hF hg hg' U U' lo c0 cs hscan hpc hpc' hopt h0 out out' h h'
+  BW.Proofs.Planner.planner_partition hF hg hg' U U' lo c0 cs hscan hpc hpc' hno hopt h0 out out' h h'
 
 /-- Adding triples never removes a row of the planner's table (patterns without OPTIONAL). -/
 theorem planner_monotone {gs gs' : List QGraph} {F : Facts} (hF : BW.Proofs.Store.Facts.WF F = true)
@@ -169,11 +171,12 @@ theorem planner_monotone {gs gs' : List QGraph} {F : Facts} (hF : BW.Proofs.Stor
     (U : BW.Proofs.Planner.Universe gs) (U' : BW.Proofs.Planner.Universe gs') (lo : QOpts) (c0 : Clause) (cs : List Clause)
     (hsub : ∀ t ∈ gs.flatMap BW.Proofs.Planner.scanOf, t ∈ gs'.flatMap BW.Proofs.Planner.scanOf)
     (hpc : ∀ c ∈ c0 :: cs, BW.Proofs.Planner.PatClause U c ∧ c.optional = false)
-    (hpc' : ∀ c ∈ c0 :: cs, BW.Proofs.Planner.PatClause U' c) (h0 : c0.extractsNothing = false)
+    (hpc' : ∀ c ∈ c0 :: cs, BW.Proofs.Planner.PatClause U' c)
+    (hno : ∀ c ∈ c0 :: cs, c.oLowerAlias = [] ∧ c.oUpperAlias = []) (h0 : c0.extractsNothing = false)
     (out out' : Tbl) (h : processPattern F gs (c0 :: cs) lo 0 (fun _ => none) = .ok out)
     (h' : processPattern F gs' (c0 :: cs) lo 0 (fun _ => none) = .ok out') :
     ∀ r ∈ out.rows, ∃ r' ∈ out'.rows, BW.Proofs.ClauseOrder.RowEq r r' :=
-  BW.Proofs.Planner.planner_monotone hF hg hg' U U' lo c0 cs hsub hpc hpc' h0 out out' h h'
+  BW.Proofs.Planner.planner_monotone hF hg hg' U U' lo c0 cs hsub hpc hpc' hno h0 out out' h h'
 
 /-! ### The order of the SELECT list -/
 
